@@ -73,6 +73,10 @@ func raceC11(out *bufio.Writer, st *Stats, r *Rng, tier string) {
 			runtime.GOMAXPROCS(c.procs)
 			runC11(out, st, r, k, ch, L, K, c.G, c.M, c.procs, byPointer)
 		}
+		// degenerate allocator: zero capacity (nothing to store, but the buffers handed out at the same
+		// time must still be different buffers)
+		runtime.GOMAXPROCS(c.procs)
+		runC11(out, st, r, kinds[ci%len(kinds)], r.Range(1, 3), 0, 0, c.G, c.M/2+1, c.procs, ci%2 == 0)
 	}
 	runtime.GOMAXPROCS(runtime.NumCPU())
 }
@@ -304,19 +308,25 @@ func raceC19(out *bufio.Writer, st *Stats, r *Rng, tier string) {
 		k := kinds[ci%len(kinds)]
 		dk := kinds[(ci+1)%len(kinds)]
 		runtime.GOMAXPROCS(c.procs)
-		runC19(w, st, r, k, dk, c.R, c.W, c.iters, c.procs)
+		runC19(w, st, r, k, dk, c.R, c.W, c.iters, c.procs, ci%2 == 1)
 	}
 	runtime.GOMAXPROCS(runtime.NumCPU())
 }
 
-func runC19(w *World, st *Stats, r *Rng, k, dk Kind, R, W, iters, procs int) {
+// carve: the shared buffer's length covers only the read-only frames and every writer slices its own
+// window out of the spare capacity inside its goroutine (slicing is one of the concurrent read-only uses)
+func runC19(w *World, st *Stats, r *Rng, k, dk Kind, R, W, iters, procs int, carve bool) {
 	ch := r.Range(1, 4)
 	perWriter := r.Range(1, 3)
 	roFrames := 3 // frames [0, roFrames) are never written: readers use them while writers run
 	K := roFrames + W*perWriter + r.Range(0, 2)
 	w.Case(fmt.Sprintf("C19 %s ch%d K%d R%d W%d iters%d procs%d", k, ch, K, R, W, iters, procs))
-	st.shape("R%d/W%d/procs%d", R, W, procs)
-	base := w.Alloc(k, false, ch, K, K)
+	st.shape("R%d/W%d/procs%d/carve%v", R, W, procs, carve)
+	baseLen := K
+	if carve {
+		baseLen = roFrames
+	}
+	base := w.Alloc(k, false, ch, baseLen, K)
 	fillAll(w, base, 0)
 	b := w.views[base]
 	// a conversion destination and caller slices for the readers are private to each reader
@@ -422,6 +432,10 @@ func runC19(w *World, st *Stats, r *Rng, k, dk Kind, R, W, iters, procs int) {
 			defer wg.Done()
 			lr := &Rng{s: seeds[R+wi]}
 			v := w.views[wviews[wi]]
+			if carve {
+				s := roFrames + wi*perWriter
+				v = b.Slice(s, s+perWriter)
+			}
 			wr := writeCall(k, k)
 			ws := writeStripedCall(k, k)
 			for it := 0; it < iters; it++ {
